@@ -15,6 +15,7 @@ mod c15;
 mod c07;
 mod c11;
 mod c18;
+mod c08;
 
 use ctx::{Ctx, Tier};
 
@@ -76,6 +77,7 @@ fn main() {
         "C18" => c18::run(&mut ctx),
         "C20" => c20::run(&mut ctx),
         "C16" => c16::run(&mut ctx),
+        "C08" => c08::run(&mut ctx),
         _ => {
             eprintln!("unknown property {}", prop);
             std::process::exit(2);
